@@ -181,9 +181,50 @@ def notch_holes_pair(rng):
     return A, B
 
 
+def mixed_gc_pair(rng):
+    """B = a collection of elements of DIFFERENT dimensions of which exactly one interacts with A (the others are far away):
+    a point on the interior of one of A's segments / on a later vertex, a polygon strictly containing A, a polygon
+    overlapping A, a line crossing A. Aimed at prepared short-cuts that decide by the collection's dimension or by its
+    first / areal element only."""
+    if rng.random() < 0.5:
+        n = rng.randint(2, 4); pts = [(0, 0)]
+        for _ in range(n):
+            dx, dy = rng.choice([(10, 0), (0, 10), (10, 10), (-10, 10), (20, 0), (10, -10)])
+            pts.append((pts[-1][0] + dx, pts[-1][1] + dy))
+        A = ('LineString', pts)
+    else:
+        A = ('Polygon', [rng.choice([[(4, 4), (6, 4), (5, 6), (4, 4)], [(2, 2), (8, 2), (8, 8), (5, 5), (2, 8), (2, 2)], G.rect_ring(3, 3, 7, 8)])])
+        pts = A[1][0][:-1]
+    xs = [p[0] for p in pts]; ys = [p[1] for p in pts]
+    x0, x1, y0, y1 = min(xs), max(xs), min(ys), max(ys)
+    far = 200
+    k = rng.random()
+    i = rng.randrange(len(pts) - 1) if A[0] == 'LineString' else rng.randrange(len(pts))
+    a, b = pts[i], pts[(i + 1) % len(pts)]
+    if k < 0.3:      # point on a segment interior (midpoint; exact for even sums, else a vertex other than the first)
+        hit = ('Point', ((a[0] + b[0]) // 2, (a[1] + b[1]) // 2)) if (a[0] + b[0]) % 2 == 0 and (a[1] + b[1]) % 2 == 0 else ('Point', b)
+    elif k < 0.5:    # polygon strictly containing A
+        hit = ('Polygon', [G.rect_ring(x0 - 5, y0 - 5, x1 + 5, y1 + 5)])
+    elif k < 0.65:   # polygon overlapping A's extent partly
+        hit = ('Polygon', [G.rect_ring((x0 + x1) // 2, y0 - 3, x1 + 6, y1 + 3)])
+    elif k < 0.8:    # line crossing A's extent
+        hit = ('LineString', [(x0 - 4, (y0 + y1) // 2), (x1 + 4, (y0 + y1) // 2 + 1)])
+    elif k < 0.9:    # point on a vertex that is not the first
+        hit = ('Point', pts[-1] if A[0] == 'LineString' else pts[len(pts) // 2])
+    else:            # nothing interacts
+        hit = ('Point', (far, -far))
+    others = [('Polygon', [G.rect_ring(far, far, far + 6, far + 4)]), ('Point', (-far, far)), ('LineString', [(-far, -far), (-far + 5, -far + 2)]),
+              ('Polygon', [[(far, -far), (far + 8, -far), (far + 4, -far + 5), (far, -far)]])]
+    rng.shuffle(others)
+    extra = [o for o in others if o[0] != hit[0]][:rng.randint(1, 2)]
+    elems = [hit] + extra
+    rng.shuffle(elems)
+    return A, ('GeometryCollection', elems)
+
+
 def structured_pair(rng):
     k = rng.random()
-    A, B = nest_pair(rng) if k < 0.4 else lineal_cover_pair(rng) if k < 0.75 else notch_holes_pair(rng)
+    A, B = nest_pair(rng) if k < 0.3 else lineal_cover_pair(rng) if k < 0.55 else notch_holes_pair(rng) if k < 0.75 else mixed_gc_pair(rng)
     kind = 'structured'
     if rng.random() < 0.4:
         f = G.to_full_precision(rng, A)
